@@ -474,6 +474,13 @@ def check_c15(tier):
     fcases = [x for x in C.tlc_cases(m)]
     multi = [x for x in fcases if x["fn"]["body"] in FIRST_YIELD and x["fn"]["ret"] == "none"]
     fcases = fcases[:: (6 if tier == "quick" else 1)] + (multi if tier == "quick" else [])
+    # fixtures WITH parameters (every parameter-kind sequence of Extract.tla's params group) and with marks around the fixture
+    # decorator: the call hierarchy has ranges to report there
+    mp = C.run_tlc("Extract", "Extract_params.cfg", workers=4, timeout=3600)
+    pc_all = [x for x in C.tlc_cases(mp)]
+    fcases += pc_all[:: (5 if tier == "quick" else 1)]
+    md = C.run_tlc("Extract", "Extract_deco.cfg", workers=4, timeout=3600)
+    fcases += [x for x in C.tlc_cases(md) if x["fn"]["extra"] in ("usefix_before", "indirect_after", "marks_around", "kwdeco_before")][:: (40 if tier == "quick" else 4)]
     base = os.path.join(C.BUILD, "ws", "c15-%d" % os.getpid())
     import shutil
     shutil.rmtree(base, ignore_errors=True)
